@@ -1,7 +1,7 @@
 (* C20 — theorems (statements in full; proofs in ProofsA..D). The model follows /repo after the
    nine C20 fix: commits (025b717 6c29d69 941ab7d a355167 e099dce 1b429d0 0a72c3c c72865a 6e820e7). *)
 From Coq Require Import List NArith ZArith Bool.
-From LTV.C20 Require Import ParamsGen Model ProofsA ProofsB ProofsC ProofsD Fetcher.
+From LTV.C20 Require Import ParamsGen Model ProofsA ProofsB ProofsC ProofsD ProofsE ProofsG Fetcher.
 Import ListNotations.
 Local Open Scope N_scope.
 
@@ -88,21 +88,39 @@ Theorem parse_handshake_pex : forall fx ms x pend sp h x' pend' sp' bad,
 Proof. exact ProofsD.parse_handshake_pex. Qed.
 Print Assumptions parse_handshake_pex.
 
-(* pex_exact, PARTIAL: proved for the buffers whenever do_peer_exchange regenerates them (<= 200
-   listed peers): every 'added' entry is a connected peer with that non-zero listen port. Missing:
-   the case "nothing added, nothing removed" keeps the old initial buffer, which needs
-   set_diff a b = [] /\ set_diff b a = [] -> a = b on strictly sorted lists; pex_private_silent as
-   an invariant over all ops (k_do never set for a private torrent) is not proved either; both are
-   covered by the oracle on every run (classes pex-added-not-connected, pex-private). *)
-Theorem pex_exact_when_regenerated_partial : forall d d1 a r,
+(* pex_exact: in every reachable state (any variant of the model, any op list), a peer-exchange
+   round over at most 200 listed peers yields m_ut_pex_list, a delta 'added' and an initial 'added'
+   (also when the initial buffer is NOT regenerated because nothing was added or removed) whose
+   every entry has the wire bytes of a currently connected peer with a non-zero listen port;
+   entries are whole 6-byte records by construction (list entry). The > 200 branch (cap + re-sort)
+   is covered by exact correspondence on unit-level rounds, not by this theorem. *)
+Theorem pex_exact : forall fx priv m minp ops d1,
+  let d := final_state fx (start fx priv m minp) ops in
   do_peer_exchange d = DpeOk d1 ->
   N.of_nat (length (sort_entries (current_entries (d_conns d)))) <= Params.c20_max_pex_list ->
-  (d_initial d1 <> d_initial d \/ d_delta d1 <> None) ->
-  (d_initial d1 = Some (a, r) \/ d_delta d1 = Some (a, r)) ->
-  (d_initial d1 = Some (a, r) -> d_initial d1 <> d_initial d) ->
-  forall e, In e a -> exists c, In c (d_conns d) /\ c_peer c = fst e /\ x_listen (c_x c) = snd e /\ snd e <> 0.
-Proof. exact ProofsD.pex_exact_when_regenerated_partial. Qed.
-Print Assumptions pex_exact_when_regenerated_partial.
+  (forall e, In e (d_list d1) -> connected_with_port d e) /\
+  (forall a r e, d_delta d1 = Some (a, r) -> In e a -> connected_with_port d e) /\
+  (forall a r e, d_initial d1 = Some (a, r) -> In e a -> connected_with_port d e).
+Proof. exact ProofsG.pex_exact. Qed.
+Print Assumptions pex_exact.
+
+(* the invariant behind it: the initial buffer lists only entries of m_ut_pex_list *)
+Theorem pex_invariant_reachable : forall fx priv m minp ops,
+  initial_in_list (final_state fx (start fx priv m minp) ops).
+Proof. exact ProofsG.pex_invariant_reachable. Qed.
+Print Assumptions pex_invariant_reachable.
+
+(* std::set_difference leaving nothing of a means every element of a is matched in b *)
+Theorem set_diff_nil_cover : forall a b, set_diff a b = [] ->
+  forall e, In e a -> exists e', In e' b /\ same_entry e e'.
+Proof. exact ProofsG.set_diff_nil_cover. Qed.
+Print Assumptions set_diff_nil_cover.
+
+(* pex_private_silent: for a private torrent no ut_pex message is ever sent, for every op list *)
+Theorem pex_private_silent : forall fx m minp ops o,
+  In o (outs_of fx (start fx true m minp) ops) -> is_pex o = false.
+Proof. exact ProofsE.pex_private_silent. Qed.
+Print Assumptions pex_private_silent.
 
 (* regression witnesses: the model without the four later repairs reproduces the three defects *)
 Theorem up_extension_internal_error_before_1b429d0 :
